@@ -76,6 +76,29 @@ MANUAL = {
     "CredentialRegistrationID": "(SOpaque 48 K_CRED_ID)",
     "Threshold": "(SRefine (PGe 1) SU8)", "ArIdentity": "(SRefine (PGe 1) SU32)",   # id/secret_sharing.rs, id/types.rs: non-zero
     "ArCurve": "(SOpaque 48 K_G1)", "ed25519::Signature": "(SRaw 64)", "ed25519_dalek::Signature": "(SRaw 64)",
+    # curve leaves of the on-chain instantiation (BLS12-381): G1 point, G2 point, scalar
+    "BlsG2": "(SOpaque 96 K_G2)", "Fr": "(SOpaque 32 K_FR)",
+    # small hand-written impls (terms in Chain/ChainSchemas.v or inline)
+    "AttributeKind": "s_attribute_kind", "YearMonth": "s_year_month", "Network": "(SEnum 2)", "did::Network": "(SEnum 2)",
+    "WasmVersion": "(SRefine (PLe 1) SU32)", "ModuleSource": "(SBytes BE 4 MAX_WASM_MODULE_SIZE)", "TokenId": "s_token_id",
+    "chrono::DateTime<chrono::Utc>": "s_datetime_utc", "RawCbor": "(SBytes BE 4 4294967295)",
+    "AccountOwnershipProof": "(SRefine (PAnd (PLenGe 1) PSortedKeys) (SVec BE 1 (STuple [{KeyIndex}; {AccountOwnershipSignature}])))",
+}
+# generic types with hand-written impls: name -> (parameters, term with {Type} placeholders)
+GENERIC_MANUAL = {
+    "Policy": (["C", "AttributeType"], "(STuple [{YearMonth}; {YearMonth}; (SMap BE 2 {AttributeTag} {AttributeType})])"),
+    "CredDeploymentProofs": (["P", "C"],
+        "(SFramed SU32 [] (STuple [{crate::ps_sig::BlindedSignature<P>}; {CredentialDeploymentCommitments<C>}; {Challenge}; "
+        "(SMap BE 4 {ArIdentity} {com_enc_eq::Response<C>}); {com_eq_sig::Response<P, C>}; {com_mult::Response<C>}; "
+        "{AccountOwnershipProof}; {RangeProof<C>}]))"),
+    "AtomicStatement": (["C", "TagType", "AttributeType"],
+        "(SSum [(0, {RevealAttributeStatement<TagType>}); (1, {AttributeInRangeStatement<C, TagType, AttributeType>}); "
+        "(2, {AttributeInSetStatement<C, TagType, AttributeType>}); (3, {AttributeNotInSetStatement<C, TagType, AttributeType>})])"),
+    "AtomicProof": (["C", "AttributeType"],
+        "(SSum [(0, (STuple [{AttributeType}; {crate::sigma_protocols::common::SigmaProof<dlog::Response<C>>}])); (1, {RangeProof<C>}); "
+        "(2, {SetMembershipProof<C>}); (3, {SetNonMembershipProof<C>})])"),
+    "AccountCredential": (["P", "C", "AttributeType"],
+        "(SSum [(0, {InitialCredentialDeploymentInfo<C, AttributeType>}); (1, {CredentialDeploymentInfo<P, C, AttributeType>})])"),
 }
 # first path segments that denote modules of concordium_base itself (a path through them is resolved by its last segment)
 INTERNAL_MODULES = {"id", "hashes", "transactions", "updates", "base", "common", "smart_contracts", "encrypted_transfers",
@@ -86,15 +109,14 @@ INTERNAL_MODULES = {"id", "hashes", "transactions", "updates", "base", "common",
 HASH_RE = re.compile(r"^(hashes::)?\w*Hash$|^HashBytes<.*>$")
 
 # generic instantiations to translate: (type name, {param: concrete}) -> output name
-INSTANCES = [("Cipher", {"C": "ArCurve"}), ("EncryptedAmount", {"C": "ArCurve"}), ("Commitment", {"C": "ArCurve"}),
+INSTANCES_UNUSED = [("Cipher", {"C": "ArCurve"}), ("EncryptedAmount", {"C": "ArCurve"}), ("Commitment", {"C": "ArCurve"}),
              ("PublicKey__elgamal_public", {"C": "ArCurve"})]
 
 # translated types that cannot be named from outside the crate (private module / item) or whose values need
 # crate-internal invariants: they keep their generated term and theorem but are not exercised by the harness
-SKIP_GLUE = {}
+SKIP_GLUE = {"Response__sigma_protocols_dlogaggequal_ArCurve": "declared in a private module that is not re-exported"}
 # items re-exported from a private module: public path of the declaration
-PATH_OVERRIDE = {"Cipher": "concordium_base::elgamal::Cipher", "Commitment": "concordium_base::pedersen_commitment::Commitment",
-                 "PublicKey__elgamal_public": "concordium_base::elgamal::PublicKey"}
+PATH_OVERRIDE = {}
 
 # hand-written terms the generated ones are tied to (Chain/GenTie.v)
 EQUAL = {   # fully derived (Serialize): generated term = hand-written term
@@ -103,7 +125,7 @@ EQUAL = {   # fully derived (Serialize): generated term = hand-written term
     "PoolParameters": "s_pool_parameters", "CommissionRanges": "s_commission_ranges", "MintRate": "s_mint_rate",
     "FinalizationCommitteeParameters": "s_finalization_committee_parameters", "AuthorizationsV0": "s_authorizations_v0",
     "AmountFraction": "s_amount_fraction", "UpdateKeysThreshold": "s_update_keys_threshold", "TransactionTime": "s_transaction_time",
-    "UpdatePublicKey": "s_verify_key", "ContractAddressG": None,
+    "UpdatePublicKey": "s_verify_key", "ArInfo_ArCurve": "s_ar_info", "Description": "s_description", "ContractAddressG": None,
 }
 LAYOUT = {  # derived Serial, hand-written Deserial: same layout once refinements and bounds are erased
     "Memo": "s_memo", "RegisteredData": "s_registered_data", "PayloadSize": "s_payload_size", "Ratio": "s_ratio",
@@ -210,8 +232,9 @@ def field_of(text):
 
 
 def scan(repo):
-    """All items with the crate's Serial/Deserial derives.  name -> decl dict."""
+    """All items with the crate's Serial/Deserial derives (name -> decl dict) and per-file imports / type aliases."""
     decls = {}
+    finfo = {}
     files = sorted(glob.glob(os.path.join(repo, SRC, "**", "*.rs"), recursive=True))
     if not files:
         raise TranslateError("no sources under %s" % os.path.join(repo, SRC))
@@ -221,6 +244,7 @@ def scan(repo):
         if cut:
             src = src[:cut.start()]
         rel = os.path.relpath(f, os.path.join(repo, SRC))
+        finfo[rel] = {"uses": parse_uses(src), "aliases": parse_type_aliases(src)}
         for m in re.finditer(r"\b(struct|enum)\s+([A-Z]\w*)", src):
             # attributes immediately before (walk back over `pub`, attributes)
             k = m.start()
@@ -312,38 +336,165 @@ def scan(repo):
                 decls[name].setdefault("homonyms", []).append(alt)
             else:
                 decls[name] = d
-    return decls
+    return decls, finfo
+
+
+def parse_uses(src):
+    """`use` statements of a file: imported name or alias -> list of path segments (crate/self/super dropped)."""
+    out = {}
+
+    def walk(prefix, item):
+        item = item.strip()
+        if not item:
+            return
+        m = re.match(r"^((?:[A-Za-z_]\w*::)*)\{(.*)\}$", item, flags=re.S)
+        if m:
+            pre = prefix + [x for x in m.group(1).split("::") if x]
+            for sub in split_top(m.group(2)):
+                walk(pre, sub)
+            return
+        m = re.match(r"^([A-Za-z_][\w:]*?)(?:\s+as\s+(\w+))?$", item, flags=re.S)
+        if not m or item.endswith("*"):
+            return
+        segs = prefix + [x for x in m.group(1).split("::") if x]
+        segs = [x for x in segs if x not in ("crate", "self", "super")]
+        if not segs:
+            return
+        name = m.group(2) or segs[-1]
+        if name != "_":
+            out.setdefault(name, segs)
+    for m in re.finditer(r"\buse\s+([^;]+);", src):
+        walk([], " ".join(m.group(1).split()))
+    return out
+
+
+def parse_type_aliases(src):
+    """`type Name<Params> = Target;`  ->  name -> (params, target)."""
+    out = {}
+    for m in re.finditer(r"^(?:pub(?:\([^)]*\))?\s+)?type\s+([A-Z]\w*)\s*(<[^=;]*>)?\s*=\s*([^;]+);", src, flags=re.M):
+        params = [g.split(":")[0].strip() for g in split_top(m.group(2)[1:-1])] if m.group(2) else []
+        out[m.group(1)] = ([q for q in params if not q.startswith("'")], " ".join(m.group(3).split()))
+    return out
+
+
+# the instantiation used on chain
+DEFAULT_ENV = {"P": "IpPairing", "C": "ArCurve", "AttributeType": "AttributeKind", "TagType": "AttributeTag", "F": "Fr",
+               "C1": "ArCurve", "C2": "ArCurve", "D": "ArCurve"}
+ASSOC = {("ArCurve", "Scalar"): "Fr", ("BlsG2", "Scalar"): "Fr", ("IpPairing", "ScalarField"): "Fr", ("IpPairing", "G1"): "ArCurve",
+         ("IpPairing", "G2"): "BlsG2", ("Fr", "Scalar"): "Fr"}
+CONCRETE_RUST = {"ArCurve": "concordium_base::id::constants::ArCurve", "IpPairing": "concordium_base::id::constants::IpPairing",
+                 "AttributeKind": "concordium_base::id::constants::AttributeKind", "AttributeTag": "concordium_base::id::types::AttributeTag",
+                 "BlsG2": "concordium_base::id::constants::BlsG2", "Fr": "concordium_base::id::constants::BaseField", "()": "()"}
 
 
 class Translator:
-    def __init__(self, decls):
+    PREFERRED = ("base.rs", "common/types.rs", "transactions.rs", "updates.rs", "id/types.rs")
+
+    def __init__(self, decls, finfo):
         self.decls = decls
-        self.done = {}        # name -> coq term text
-        self.deps = {}        # name -> set of generated names it references
-        self.errors = {}      # name -> reason
+        self.finfo = finfo    # file -> {"uses": .., "aliases": ..}
+        self.done = {}        # output name -> coq term text
+        self.deps = {}        # output name -> set of generated names it references
+        self.errors = {}      # output name -> reason
         self.inst = {}        # output name -> (declaration name, generic environment)
         self.stack = []
+        self.tokens = {}      # "@k" -> (coq term, label): generic arguments translated in the referring context
+        self.modules = {x for f in finfo for x in f[:-3].split("/")}
+        self.by_base = {}
+        for k, d in decls.items():
+            self.by_base.setdefault(k.split("__")[0], []).append(k)
 
     def pow256m1(self, n):
         return str(256 ** n - 1)
 
-    def ty(self, t, env, owner):
-        t = t.strip()
-        t = re.sub(r"^(crate::|super::|common::types::|common::|types::|base::|self::)+", "", t)
-        if t in env:
-            return self.ty(env[t], {}, owner)
+    # ---- generic arguments -------------------------------------------------------------------
+    def concretize(self, a, env):
+        """Substitute the generic parameters in a type expression and normalise associated types."""
+        a = a.strip()
+        a = re.sub(r"<\s*(\w+)\s+as\s+\w+\s*>::", r"\1::", a)
+        a = re.sub(r"\b(crate::)?(base::)?AggregateSigPairing\b", "IpPairing", a)
+        a = re.sub(r"\b(crate::)?(constants::)?EncryptedAmountsCurve\b", "ArCurve", a)
+        a = re.sub(r"\b(crate::)?(id::)?(constants::)?(ArCurve|IpPairing|BlsG2|AttributeKind)\b", r"\4", a)
+        if env:
+            a = re.sub(r"\b(%s)\b" % "|".join(re.escape(k) for k in sorted(env, key=len, reverse=True)), lambda m: env[m.group(1)], a)
+        changed = True
+        while changed:
+            changed = False
+            for (x, y), v in ASSOC.items():
+                n2 = re.sub(r"\b%s::%s\b" % (x, y), v, a)
+                if n2 != a:
+                    a, changed = n2, True
+        return a
+
+    # ---- name resolution ---------------------------------------------------------------------
+    def module_path(self, declname):
+        f = self.decls[declname]["file"][:-3]
+        return [x for x in f.split("/") if x != "mod"]
+
+    def resolve(self, qual, base, ctxfile):
+        """Declaration key for `qual::base` referenced from ctxfile (None if not a derived declaration)."""
+        cands = self.by_base.get(base, [])
+        if not cands:
+            return None
+        if qual:
+            hit = [c for c in cands if qual[-1] in self.module_path(c)]
+            if len(hit) == 1:
+                return hit[0]
+            hit2 = [c for c in hit if all(q in self.module_path(c) for q in qual)]
+            if len(hit2) == 1:
+                return hit2[0]
+            if hit:
+                cands = hit      # else: a re-export (pedersen_commitment::Value = curve_arithmetic::Value): resolve unqualified
+        if len(cands) == 1:
+            return cands[0]
+        same = [c for c in cands if self.decls[c]["file"] == ctxfile]
+        if len(same) == 1:
+            return same[0]
+        # a module's mod.rs re-exporting its children: prefer the declaration in the same directory
+        if ctxfile:
+            d0 = os.path.dirname(ctxfile)
+            near = [c for c in cands if os.path.dirname(self.decls[c]["file"]) == d0 and d0]
+            if len(near) == 1:
+                return near[0]
+        for pf in self.PREFERRED:
+            hit = [c for c in cands if self.decls[c]["file"] == pf]
+            if len(hit) == 1:
+                return hit[0]
+        raise TranslateError("type name %s is declared in several modules (%s)" % (base, ", ".join(self.decls[c]["file"] for c in cands)))
+
+    # ---- types -------------------------------------------------------------------------------
+    def bind_args(self, args, owner, ctxfile):
+        """Generic arguments: basic concrete names stay names, anything else is translated here (in the
+        referring file's context) and passed on as a token."""
+        out = []
+        for a in args:
+            a = a.strip()
+            if a in CONCRETE_RUST or re.match(r"^@\d+$", a) or a == "Web3IdAttribute":
+                out.append(a)
+            else:
+                term = self.ty(a, {}, owner, ctxfile)
+                tok = "@%d" % len(self.tokens)
+                self.tokens[tok] = (term, a)
+                out.append(tok)
+        return out
+
+    def ty(self, t, env, owner, ctxfile):
+        t = self.concretize(t, env)
+        t = re.sub(r"^&\s*('\w+\s+)?(mut\s+)?", "", t).strip()
+        if re.match(r"^@\d+$", t):
+            return self.tokens[t][0]
         if t in PRIM:
             return PRIM[t]
         if t in MANUAL:
-            return MANUAL[t]
+            return self.template(MANUAL[t], {}, owner, ctxfile)
         if HASH_RE.match(t):
             return "(SRaw 32)"
         m = re.match(r"^(?:std::marker::|marker::)?PhantomData<.*>$", t)
         if m:
             return "SUnit"
-        m = re.match(r"^Box<(.*)>$", t)
+        m = re.match(r"^(?:Box|Rc|std::rc::Rc|Arc|std::sync::Arc)<(.*)>$", t)
         if m:
-            return self.ty(m.group(1), env, owner)
+            return self.ty(m.group(1), {}, owner, ctxfile)
         m = re.match(r"^\[(.*);\s*(\w+)\]$", t)
         if m:
             n = m.group(2)
@@ -354,88 +505,91 @@ class Translator:
                 n = consts[n]
             if m.group(1).strip() == "u8":
                 return "(SRaw %s)" % n
-            return "(SArray %s %s)" % (n, self.ty(m.group(1), env, owner))
+            return "(SArray %s %s)" % (n, self.ty(m.group(1), {}, owner, ctxfile))
         if t.startswith("(") and t.endswith(")"):
             parts = split_top(t[1:-1])
             if len(parts) in (2, 3):
-                return "(STuple [%s])" % "; ".join(self.ty(p, env, owner) for p in parts)
+                return "(STuple [%s])" % "; ".join(self.ty(q, {}, owner, ctxfile) for q in parts)
             raise TranslateError("tuple of %d components has no Serial impl" % len(parts))
         m = re.match(r"^Vec<(.*)>$", t)
         if m:
-            return "(SVec BE 8 %s)" % self.ty(m.group(1), env, owner)
+            return "(SVec BE 8 %s)" % self.ty(m.group(1), {}, owner, ctxfile)
         m = re.match(r"^(?:std::collections::)?BTreeMap<(.*)>$", t)
         if m:
             k, v = split_top(m.group(1))
-            return "(SMap BE 8 %s %s)" % (self.ty(k, env, owner), self.ty(v, env, owner))
+            return "(SMap BE 8 %s %s)" % (self.ty(k, {}, owner, ctxfile), self.ty(v, {}, owner, ctxfile))
         m = re.match(r"^(?:std::collections::)?BTreeSet<(.*)>$", t)
         if m:
-            return "(SSet BE 8 %s)" % self.ty(m.group(1), env, owner)
+            return "(SSet BE 8 %s)" % self.ty(m.group(1), {}, owner, ctxfile)
         if t == "String":
             return "(SRefine (POpaque K_UTF8) (SBytes BE 8 %s))" % self.pow256m1(8)
-        m = re.match(r"^Option<", t)
-        if m:
+        if re.match(r"^Option<", t):
             raise TranslateError("Option<_> has no Serial/Deserial impl in this crate (field type %s)" % t)
-        m = re.match(r"^([A-Za-z_][\w:]*)\s*(<(.*)>)?$", t)
-        if m:
-            segs = m.group(1).split("::")
-            if len(segs) > 1 and segs[0] not in INTERNAL_MODULES:
-                raise TranslateError("no schema for foreign type `%s`" % t)
-            base = segs[-1]
-            args = split_top(m.group(3)) if m.group(3) else []
-            if base in MANUAL and not args:
-                return MANUAL[base]
-            if base in self.decls:
-                base = self.resolve(base, owner)
-                d = self.decls[base]
-                if not d["deserial"] or not d["serial"]:
-                    # the other half is hand-written (usually a decoder with extra checks): the derived layout alone is
-                    # not the type's format - it needs a hand-written term listed in MANUAL
-                    raise TranslateError("field type %s has a hand-written %s and no term in MANUAL" % (base, "Deserial" if d["serial"] else "Serial"))
-                if d["generics"]:
-                    real = [g for g in d["generics"] if not g.startswith("'")]
-                    key = (base, tuple(args))
-                    if len(real) != len(args):
-                        raise TranslateError("generic arity mismatch for %s" % t)
-                    # a generic type whose parameters only occur in PhantomData translates uniformly
-                    name = self.translate(base, dict(zip(real, [self.subst(a, env) for a in args])))
-                else:
-                    name = self.translate(base, {})
-                self.deps.setdefault(owner, set()).add(name)
-                return "g_" + name
-        raise TranslateError("no schema for field type `%s`" % t)
+        m = re.match(r"^([A-Za-z_][\w:]*)\s*(<(.*)>)?$", t, flags=re.S)
+        if not m:
+            raise TranslateError("no schema for field type `%s`" % t)
+        segs = [x for x in m.group(1).split("::") if x not in ("crate", "self", "super")]
+        args = split_top(m.group(3)) if m.group(3) else []
+        uses = self.finfo.get(ctxfile, {}).get("uses", {})
+        # imported names / renames / module aliases of the referring file
+        if segs and segs[0] in uses and not (len(segs) == 1 and self.resolve([], segs[0], ctxfile) in
+                                             [k for k in self.by_base.get(segs[0], []) if self.decls[k]["file"] == ctxfile]):
+            segs = uses[segs[0]] + segs[1:]
+        if len(segs) > 1 and "::".join(segs[-2:]) in MANUAL and not args:
+            return self.template(MANUAL["::".join(segs[-2:])], {}, owner, ctxfile)
+        if len(segs) > 1 and segs[0] not in INTERNAL_MODULES and segs[0] not in self.modules:
+            full = "::".join(segs) + ("<%s>" % ", ".join(args) if args else "")
+            if full in MANUAL:
+                return self.template(MANUAL[full], {}, owner, ctxfile)
+            raise TranslateError("no schema for foreign type `%s`" % full)
+        qual, base = segs[:-1], segs[-1]
+        # type aliases (file first, then a unique global one)
+        al = self.finfo.get(ctxfile, {}).get("aliases", {}).get(base) if not qual else None
+        alfile = ctxfile
+        if qual:
+            hits = [(f, fi["aliases"][base]) for f, fi in self.finfo.items() if base in fi["aliases"] and qual[-1] in f[:-3].split("/")]
+            if len(hits) == 1:
+                alfile, al = hits[0]
+        if al is None and not self.by_base.get(base) and base not in MANUAL and base not in GENERIC_MANUAL:
+            hits = [(f, fi["aliases"][base]) for f, fi in self.finfo.items() if base in fi["aliases"]
+                    and (not qual or qual[-1] in f[:-3].split("/"))]
+            if len(hits) == 1:
+                alfile, al = hits[0]
+        if al is not None:
+            params, target = al
+            if len(params) != len(args):
+                raise TranslateError("alias %s used with %d arguments" % (base, len(args)))
+            return self.ty(target, dict(zip(params, self.bind_args(args, owner, ctxfile))), owner, alfile)
+        key = self.resolve(qual, base, ctxfile)
+        if base in GENERIC_MANUAL and (key is None):
+            params, tmpl = GENERIC_MANUAL[base]
+            if len(params) != len(args):
+                raise TranslateError("%s used with %d arguments" % (base, len(args)))
+            return self.template(tmpl, dict(zip(params, self.bind_args(args, owner, ctxfile))), owner, ctxfile)
+        if base in MANUAL and not args and (key is None or self.decls[key]["file"] in ("base.rs", "common/types.rs", "transactions.rs", "updates.rs", "id/types.rs", "id/secret_sharing.rs", "smart_contracts.rs", "protocol_level_tokens/token_id.rs", "web3id/did.rs", "id/constants.rs")):
+            return self.template(MANUAL[base], {}, owner, ctxfile)
+        if key is None:
+            raise TranslateError("no schema for field type `%s`" % t)
+        d = self.decls[key]
+        if not d["deserial"] or not d["serial"]:
+            raise TranslateError("field type %s has a hand-written %s and no term in MANUAL" % (base, "Deserial" if d["serial"] else "Serial"))
+        real = [g for g in d["generics"] if not g.startswith("'")]
+        if len(real) != len(args):
+            raise TranslateError("generic arity mismatch for %s" % t)
+        name = self.translate(key, dict(zip(real, self.bind_args(args, owner, ctxfile))))
+        self.deps.setdefault(owner, set()).add(name)
+        return "g_" + name
 
-    PREFERRED = ("base.rs", "common/types.rs", "transactions.rs", "updates.rs", "id/types.rs")
+    def template(self, tmpl, env, owner, ctxfile):
+        """Hand-written term with {Type} placeholders for referenced types."""
+        def rep(m):
+            return self.ty(m.group(1), env, owner, "id/types.rs")
+        return re.sub(r"\{([^{}]+)\}", rep, tmpl)
 
-    def resolve(self, base, owner):
-        """Homonyms: the declaration in the referring type's own file wins, then the chain-type modules."""
-        cands = [base] + self.decls[base].get("homonyms", [])
-        if len(cands) == 1:
-            return base
-        of = self.decls[self.owner_decl(owner)]["file"] if self.owner_decl(owner) else None
-        same = [c for c in cands if self.decls[c]["file"] == of]
-        if len(same) == 1:
-            return same[0]
-        for pf in self.PREFERRED:
-            hit = [c for c in cands if self.decls[c]["file"] == pf]
-            if len(hit) == 1:
-                return hit[0]
-        raise TranslateError("type name %s is declared in several modules (%s)" % (base, ", ".join(self.decls[c]["file"] for c in cands)))
-
-    def owner_decl(self, owner):
-        if owner in self.decls:
-            return owner
-        for k in self.decls:
-            if owner.startswith(k + "_"):
-                return k
-        return None
-
-    def subst(self, a, env):
-        return env.get(a.strip(), a.strip())
-
-    def field(self, f, env, owner):
+    def field(self, f, env, owner, ctxfile):
         la = f["len_attr"]
-        t = f["type"]
-        t = re.sub(r"^(crate::|super::|common::)+", "", t)
+        t = self.concretize(f["type"], env)
+        t = re.sub(r"^&\s*('\w+\s+)?", "", t).strip()
         if la:
             if len(la) != 1:
                 raise TranslateError("several length attributes on one field")
@@ -446,37 +600,49 @@ class Translator:
                 m = re.match(r"^Vec<(.*)>$", t)
                 if not m:
                     raise TranslateError("size_length on non-Vec field type %s" % t)
-                return "(SVec BE %d %s)" % (n, self.ty(m.group(1), env, owner))
+                return "(SVec BE %d %s)" % (n, self.ty(m.group(1), {}, owner, ctxfile))
             if k == "map_size_length":
                 m = re.match(r"^(?:std::collections::)?BTreeMap<(.*)>$", t)
                 if not m:
                     raise TranslateError("map_size_length on non-BTreeMap field type %s" % t)
                 kk, vv = split_top(m.group(1))
-                return "(SMap BE %d %s %s)" % (n, self.ty(kk, env, owner), self.ty(vv, env, owner))
+                return "(SMap BE %d %s %s)" % (n, self.ty(kk, {}, owner, ctxfile), self.ty(vv, {}, owner, ctxfile))
             if k == "set_size_length":
                 m = re.match(r"^(?:std::collections::)?BTreeSet<(.*)>$", t)
                 if not m:
                     raise TranslateError("set_size_length on non-BTreeSet field type %s" % t)
-                return "(SSet BE %d %s)" % (n, self.ty(m.group(1), env, owner))
+                return "(SSet BE %d %s)" % (n, self.ty(m.group(1), {}, owner, ctxfile))
             if k == "string_size_length":
                 if t != "String":
                     raise TranslateError("string_size_length on non-String field type %s" % t)
                 return "(SRefine (POpaque K_UTF8) (SBytes BE %d %s))" % (n, self.pow256m1(n))
-        return self.ty(t, env, owner)
+        return self.ty(t, {}, owner, ctxfile)
 
-    def fields_term(self, fields, env, owner):
+    def fields_term(self, fields, env, owner, ctxfile):
         # PhantomData fields occupy no bytes and carry no value: dropped
         fields = [f for f in fields if not re.match(r"^(std::marker::|marker::)?PhantomData<", f["type"])]
-        terms = [self.field(f, env, owner) for f in fields]
+        terms = [self.field(f, env, owner, ctxfile) for f in fields]
         if len(terms) == 1:
             return terms[0]
         if not terms:
             return "SUnit"
         return "(STuple [%s])" % "; ".join(terms)
 
+    def out_name(self, name, env):
+        d = self.decls[name]
+        used = [g for g in env if not self.is_phantom_only(d, g)]
+        if not used:
+            return name
+        def lab(v):
+            v = self.tokens[v][1] if v in self.tokens else v
+            v = re.sub(r"@\d+", lambda m: self.tokens[m.group(0)][1], v)
+            return re.sub(r"\W+", "", re.sub(r"<|,\s*|::", "_", v))
+        return name + "_" + "_".join(lab(env[g]) for g in used)
+
     def translate(self, name, env):
         d = self.decls[name]
-        out = name if not env or all(self.is_phantom_only(d, g) for g in env) else name + "_" + "_".join(re.sub(r"\W", "", v) for v in env.values())
+        env = {k: self.concretize(v, {}) for k, v in env.items()}
+        out = self.out_name(name, env)
         self.inst[out] = (name, dict(env))
         if out in self.done:
             return out
@@ -487,9 +653,9 @@ class Translator:
         self.stack.append(out)
         try:
             if d["kind"] == "struct":
-                term = self.fields_term(d["fields"], env, out)
                 if d["shape"] == "unit":
                     raise TranslateError("derive on a unit struct panics in the macro")
+                term = self.fields_term(d["fields"], env, out, d["file"])
             else:
                 if len(d["variants"]) > 256:
                     raise TranslateError("more than 256 variants")
@@ -498,7 +664,7 @@ class Translator:
                     for f in v["fields"]:
                         if f["len_attr"]:
                             raise TranslateError("length attribute inside an enum variant (rejected by the macro)")
-                    alts.append("(%d, %s)" % (i, self.fields_term(v["fields"], env, out)))
+                    alts.append("(%d, %s)" % (i, self.fields_term(v["fields"], env, out, d["file"])))
                 term = "(SSum [%s])" % "; ".join(alts)
             self.done[out] = term
             return out
@@ -516,25 +682,42 @@ class Translator:
                 return False
         return True
 
+    def rust_type(self, v):
+        return CONCRETE_RUST.get(v)
+
+    def default_env(self, d):
+        """The on-chain instantiation of a generic declaration, or None if a parameter has no default."""
+        fs = d.get("fields") or [f for v in d.get("variants", []) for f in v["fields"]]
+        text = " ; ".join(f["type"] for f in fs)
+        env = {}
+        for g in [x for x in d["generics"] if not x.startswith("'")]:
+            if self.is_phantom_only(d, g):
+                env[g] = "()"
+            elif re.search(r"\b%s::(G1|G2|ScalarField|TargetField)\b" % g, text):
+                env[g] = "IpPairing"
+            elif re.search(r"\b%s::Scalar\b" % g, text):
+                env[g] = "ArCurve"
+            elif g in DEFAULT_ENV:
+                env[g] = DEFAULT_ENV[g]
+            else:
+                return None
+        return env
+
 
 def generate(repo="/repo", out=None):
     here = os.path.dirname(os.path.dirname(os.path.abspath(__file__)))
     out = out or os.path.join(here, "coq", "Gen", "ChainSchemas.v")
-    decls = scan(repo)
-    tr = Translator(decls)
+    decls, finfo = scan(repo)
+    tr = Translator(decls, finfo)
     order = []
     for name in sorted(decls):
         d = decls[name]
         real = [g for g in d["generics"] if not g.startswith("'")]
         try:
-            if real and not all(tr.is_phantom_only(d, g) for g in real):
-                insts = [v for (n2, v) in INSTANCES if n2 == name]
-                if not insts:
-                    raise TranslateError("generic over %s (no instantiation configured)" % ", ".join(real))
-                for env in insts:
-                    tr.translate(name, dict(env))
-            else:
-                tr.translate(name, {g: "()" for g in real})
+            env = tr.default_env(d)
+            if env is None:
+                raise TranslateError("generic over %s: translated only where it is referenced with concrete arguments" % ", ".join(real))
+            tr.translate(name, env)
         except TranslateError as ex:
             tr.errors.setdefault(name, str(ex))
     # hard failures: a tied type that can no longer be translated
@@ -549,8 +732,9 @@ def generate(repo="/repo", out=None):
         if n in emitted:
             return
         emitted.add(n)
-        for dep in sorted(tr.deps.get(n, ())):
-            emit(dep)
+        for dep in sorted(set(re.findall(r"\bg_(\w+)", tr.done[n]))):
+            if dep in tr.done:
+                emit(dep)
         order.append(n)
     for n in sorted(tr.done):
         emit(n)
@@ -566,7 +750,8 @@ def generate(repo="/repo", out=None):
         lines.append("(* %s  %s %s%s%s *)" % (d["file"], d["kind"], n, "" if d["serial"] else "  [Deserial only]", "" if d["deserial"] else "  [Serial derived, Deserial hand-written]"))
         lines.append("Definition g_%s : schema := %s." % (n, tr.done[n]))
     # table of the fully derived types that are not tied to a hand-written term
-    table = [n for n in both if n not in EQUAL and n not in SKIP_GLUE and decl_of(n).get("pub", True)]
+    table = [n for n in both if n not in EQUAL and n not in SKIP_GLUE and decl_of(n).get("pub", True)
+             and all(tr.rust_type(v) for v in tr.inst[n][1].values())]
     lines.append("")
     lines.append("(** Fully derived types (Serial and Deserial both generated) without a hand-written term: registered for the")
     lines.append("    correspondence run under the ids below. *)")
@@ -575,6 +760,16 @@ def generate(repo="/repo", out=None):
     lines.append("Definition gen_all : list schema := [%s]." % "; ".join("g_" + n for n in order))
     lines.append("Definition gen_equal_pairs : list (schema * schema) := [%s]." % "; ".join("(g_%s, %s)" % (n, EQUAL[n]) for n in sorted(EQUAL)))
     lines.append("Definition gen_layout_pairs : list (schema * schema) := [%s]." % "; ".join("(g_%s, %s)" % (n, LAYOUT[n]) for n in sorted(LAYOUT)))
+    private_mods = set()
+    for f in finfo:
+        stem = f[:-3].split("/")
+        if stem[-1] in ("mod", "lib"):
+            parent = tuple(stem[:-1])
+            src = strip_comments(open(os.path.join(repo, SRC, f)).read())
+            for mm in re.finditer(r"^\s*(pub(?:\([^)]*\))?\s+)?mod\s+(\w+)\s*;", src, flags=re.M):
+                if not (mm.group(1) or "").startswith("pub") or "(" in (mm.group(1) or ""):
+                    private_mods.add((parent, mm.group(2)))
+
     def rust_path(n):
         d = decl_of(n)
         mod = d["file"][:-3]
@@ -585,11 +780,19 @@ def generate(repo="/repo", out=None):
         args = ""
         real = [g for g in d["generics"] if not g.startswith("'")]
         if real:
-            known = {"ArCurve": "concordium_base::id::constants::ArCurve", "AttributeTag": "concordium_base::id::types::AttributeTag", "()": "()"}
-            args = "<" + ", ".join(known.get(env.get(g, "()"), env.get(g, "()")) for g in real) + ">"
+            def arg_of(g):
+                v = env.get(g, "()")
+                if v == "()" and g in DEFAULT_ENV:      # phantom parameter: any type satisfying the bounds
+                    v = DEFAULT_ENV[g]
+                return tr.rust_type(v)
+            args = "<" + ", ".join(arg_of(g) for g in real) + ">"
         if base in PATH_OVERRIDE:
             return PATH_OVERRIDE[base] + args
-        return "concordium_base::" + mod.replace("/", "::") + "::" + tyname + args
+        segs = mod.split("/")
+        # private child module re-exported by its parent (`mod x; pub use x::*;`)
+        while len(segs) > 1 and (tuple(segs[:-1]), segs[-1]) in private_mods:
+            segs = segs[:-1]
+        return "concordium_base::" + "::".join(segs) + "::" + tyname + args
     glue = ["// GENERATED by translators/gen_chain_schemas.py - do not edit.  Schema id => Rust type for the derived types",
             "// that have a generated schema term (coq/Gen/ChainSchemas.v gen_schema_table).",
             "macro_rules! gen_types { ($m:ident) => { $m! {"]
